@@ -144,6 +144,35 @@ def build_driver():
         return True, "rebuilt"
 
 
+def build_cdriver():
+    """extracted cost model (C20) -> _build/ocaml/cdriver ; keeps the last good binary on failure"""
+    with Lock("ocamlc"):
+        src = [os.path.join(COQ, "cmodel.ml"), os.path.join(COQ, "cmodel.mli"), os.path.join(VERIF, "driver", "cdriver.ml")]
+        if not all(os.path.exists(s) for s in src):
+            return False, "extraction output missing"
+        d = os.path.join(BUILD, "ocaml")
+        os.makedirs(d, exist_ok=True)
+        stamp = os.path.join(d, "cstamp")
+        h = file_hash(src)
+        if os.path.exists(stamp) and open(stamp).read() == h and os.path.exists(os.path.join(d, "cdriver")):
+            return True, "up to date"
+        w = os.path.join(d, "cwork")
+        shutil.rmtree(w, ignore_errors=True)
+        os.makedirs(w)
+        for s_ in src:
+            shutil.copy(s_, w)
+        rc, out = sh(["ocamlfind", "ocamlopt", "-w", "-a", "-O3", "-o", "cdriver", "cmodel.mli", "cmodel.ml", "cdriver.ml"], cwd=w)
+        if rc != 0:
+            rc, out = sh(["ocamlfind", "ocamlopt", "-w", "-a", "-o", "cdriver", "cmodel.mli", "cmodel.ml", "cdriver.ml"], cwd=w)
+        if rc != 0:
+            return False, out[-600:]
+        shutil.copy(os.path.join(w, "cdriver"), os.path.join(d, "cdriver"))
+        open(stamp, "w").write(h)
+        return True, "rebuilt"
+
+
+CDRIVER = os.path.join(BUILD, "ocaml", "cdriver")
+
 DRIVER = os.path.join(BUILD, "ocaml", "driver")
 
 # ---------------------------------------------------------------- harness variants
@@ -223,7 +252,7 @@ def run_sharded(tag, shards, commands, workdir):
         jobs = []
         for i, p in enumerate(paths):
             argv = mk(p, {k: os.path.join(workdir, "%s.%d.%s" % (tag, i, k)) for k in results})
-            pre = ["sh", "-c", 'ulimit -s unlimited 2>/dev/null; exec "$@"', "sh"] if name in ("model", "ref", "oracle") else []
+            pre = ["sh", "-c", 'ulimit -s unlimited 2>/dev/null; exec "$@"', "sh"] if name in ("model", "ref", "oracle", "cost") else []
             jobs.append((name, i, argv, pre))
         with cf.ThreadPoolExecutor(max_workers=NPROC) as ex:
             done = list(ex.map(one, jobs))
